@@ -115,7 +115,7 @@ pub fn decide(pc: &PrivCircuit, leaves: &[LeafStmt], pre: &[D4], which: Which, r
             if out.is_sat() != r.verdict.is_ok() {
                 if out.is_sat() {
                     // circuit accepts what the specification rejects: confirm with the real prover
-                    match pc.circuit.confirm(&inputs, &[]) {
+                    match pc.circuit.confirm_ok(&inputs, &[]) {
                         Ok(_) => t.violation(
                             format!("C07:accepts:{:?}", r.failing.first().unwrap()),
                             format!("private-batch wrapper satisfiable (real proof verifies) for a batch failing {:?}", r.failing),
@@ -126,7 +126,7 @@ pub fn decide(pc: &PrivCircuit, leaves: &[LeafStmt], pre: &[D4], which: Which, r
                 } else {
                     // circuit rejects what the specification accepts; the honest witness is the only
                     // witness here, so also try the real prover to rule out an evaluator artefact
-                    match pc.circuit.confirm(&inputs, &[]) {
+                    match pc.circuit.confirm_ok(&inputs, &[]) {
                         Ok(_) => t.infra("C07 evaluator Unsat but real prover produced a verifying proof".to_string()),
                         Err(_) => t.violation(
                             "C07:rejects-compatible".to_string(),
@@ -177,7 +177,7 @@ pub fn decide(pc: &PrivCircuit, leaves: &[LeafStmt], pre: &[D4], which: Which, r
             if let (Some(pis), Ok(())) = (out.pis(), &r.verdict) {
                 if pis != r.output.as_slice() {
                     let pos = pis.iter().zip(r.output.iter()).position(|(a, b)| a != b);
-                    match pc.circuit.confirm(&inputs, &[]) {
+                    match pc.circuit.confirm_ok(&inputs, &[]) {
                         Ok(_) => t.violation(
                             format!("C06:output-mismatch:{}", region_of(pos.unwrap_or(0), n)),
                             format!("private-batch output differs from the specified aggregate at index {:?} (got {:?}, expected {:?})",
@@ -224,7 +224,7 @@ pub fn decide(pc: &PrivCircuit, leaves: &[LeafStmt], pre: &[D4], which: Which, r
                     why = format!("sum of output slots {} != sum over real leaves {}", total_out, total_in);
                 }
                 if !ok {
-                    match pc.circuit.confirm(&inputs, &[]) {
+                    match pc.circuit.confirm_ok(&inputs, &[]) {
                         Ok(_) => t.violation("C08:conservation".to_string(), why, violation_case("priv_conservation")),
                         Err(e) => t.infra(format!("C08 mismatch but real prover disagreed: {}", e)),
                     }
@@ -508,6 +508,7 @@ pub fn run(ctx: &Ctx, which: Which) {
             }
         }
     });
+    shrink_violations(ctx, &circuits, which);
     if exhaustive_stride == 1 {
         ctx.extra("exhaustive_subspaces", json!(["N=1 x 384-value slot domain", "N=2 x 384^2 slot domain"]));
     } else {
@@ -523,6 +524,102 @@ pub fn run(ctx: &Ctx, which: Which) {
     }
     let _ = refm::P;
     let _ = Reject::Asset;
+}
+
+/// Shrinks the first recorded case of every violation signature (C06–C09): slots are dropped
+/// (delta debugging over the slot list, building the smaller wrapper circuit on demand) and the
+/// remaining public-input values are simplified towards 0/1, each candidate being re-decided from
+/// scratch and kept only when the *same signature* is reported again. The shrunk batch replaces the
+/// case in the replay file; the original size is kept as `shrunk_from_n`.
+fn shrink_violations(ctx: &Ctx, circuits: &BTreeMap<usize, PrivCircuit>, which: Which) {
+    let mut vs = std::mem::take(&mut ctx.tally.lock().unwrap().violations);
+    let mut extra_circuits: BTreeMap<usize, PrivCircuit> = BTreeMap::new();
+    let mut done: Vec<String> = vec![];
+    let mut shrink_log = vec![];
+    for v in vs.iter_mut() {
+        if done.contains(&v.signature) || done.len() >= 6 {
+            continue;
+        }
+        let Some((l0, p0)) = pbatch::batch_from_json(&v.case["batch"]) else { continue };
+        done.push(v.signature.clone());
+        let sig = v.signature.clone();
+        let evals = std::cell::Cell::new(0usize);
+        let test = |l: &[LeafStmt], p: &[D4], extra: &mut BTreeMap<usize, PrivCircuit>| -> Option<crate::util::Violation> {
+            let n = l.len();
+            if n == 0 || p.len() != n {
+                return None;
+            }
+            if !circuits.contains_key(&n) && !extra.contains_key(&n) {
+                match build_circuits(&[n], false) {
+                    Ok(mut m) => {
+                        if let Some(pc) = m.remove(&n) {
+                            extra.insert(n, pc);
+                        }
+                    }
+                    Err(_) => return None,
+                }
+            }
+            let pc = circuits.get(&n).or_else(|| extra.get(&n))?;
+            evals.set(evals.get() + 1);
+            // a few decision RNGs: C09's permutation / rewriting sub-checks draw from it
+            for k in 0..(if matches!(which, Which::C09) { 3u64 } else { 1 }) {
+                let mut rng = Rng::fork(0x5eed_5a1e ^ k, n as u64);
+                let mut t = Tally::new();
+                decide(pc, l, p, which, &mut rng, &mut t);
+                if let Some(found) = t.violations.into_iter().find(|x| x.signature == sig) {
+                    return Some(found);
+                }
+            }
+            None
+        };
+        crate::engine::e1::FAST_CONFIRM.with(|c| c.set(true));
+        if test(&l0, &p0, &mut extra_circuits).is_none() {
+            crate::engine::e1::FAST_CONFIRM.with(|c| c.set(false));
+            continue; // not reproducible outside its generation context: keep the original case
+        }
+        // (1) drop slots
+        let idx: Vec<usize> = (0..l0.len()).collect();
+        let kept = crate::util::ddmin(idx, |keep| {
+            if keep.is_empty() || evals.get() > 300 {
+                return false;
+            }
+            let l: Vec<LeafStmt> = keep.iter().map(|i| l0[*i].clone()).collect();
+            let p: Vec<D4> = keep.iter().map(|i| p0[*i]).collect();
+            test(&l, &p, &mut extra_circuits).is_some()
+        });
+        let kept = if kept.is_empty() { (0..l0.len()).collect() } else { kept };
+        let l1: Vec<LeafStmt> = kept.iter().map(|i| l0[*i].clone()).collect();
+        let p1: Vec<D4> = kept.iter().map(|i| p0[*i]).collect();
+        // (2) simplify values (flattened: 21 public inputs per slot, then 4 preimage limbs per slot)
+        let n = l1.len();
+        let mut flat: Vec<u64> = l1.iter().flat_map(|l| l.pis().to_vec()).collect();
+        flat.extend(p1.iter().flat_map(|d| d.to_vec()));
+        let unflat = |f: &[u64]| -> (Vec<LeafStmt>, Vec<D4>) {
+            let l = (0..n).map(|i| LeafStmt::from_pis(&f[21 * i..21 * i + 21])).collect();
+            let p = (0..n).map(|i| [f[21 * n + 4 * i], f[21 * n + 4 * i + 1], f[21 * n + 4 * i + 2], f[21 * n + 4 * i + 3]]).collect();
+            (l, p)
+        };
+        let flat = crate::util::simplify_u64s(flat, |f| {
+            if evals.get() > 1200 {
+                return false;
+            }
+            let (l, p) = unflat(f);
+            test(&l, &p, &mut extra_circuits).is_some()
+        });
+        let (l2, p2) = unflat(&flat);
+        crate::engine::e1::FAST_CONFIRM.with(|c| c.set(false)); // the shrunk case is confirmed by the real prover
+        if let Some(found) = test(&l2, &p2, &mut extra_circuits) {
+            shrink_log.push(json!({"signature": sig, "slots": [l0.len(), l2.len()], "nonzero_values": [l0.iter().flat_map(|l| l.pis().to_vec()).filter(|x| *x != 0).count(), flat.iter().take(21 * n).filter(|x| **x != 0).count()], "re-decisions": evals.get()}));
+            let mut case = found.case;
+            case["shrunk_from_n"] = json!(l0.len());
+            v.case = case;
+            v.description = format!("{} [shrunk from N={} to N={}]", found.description, l0.len(), l2.len());
+        }
+    }
+    ctx.tally.lock().unwrap().violations = vs;
+    if !shrink_log.is_empty() {
+        ctx.extra("shrinking", json!(shrink_log));
+    }
 }
 
 /// Replay for priv_* kinds (C06–C09): re-evaluate and report whether circuit and
